@@ -16,7 +16,15 @@ RULE = (
     '(it may touch its own identity node only) and another runtime registers a further identity-less instance through '
     'EndpointPresence under its own session (it may not rewrite a node another session holds); 0-2 auxiliary calls '
     '(EndpointPresence.unregister_running/_endpoints/_identity, presence.kill_node, trace.app.zk._unschedule; run '
-    'atomically); a budget of 0-2 session expiries and 0-1 process crashes that keep the session. Interleaving: '
+    'atomically); in about a third of the scenarios each: the event daemon of a host publishes a terminal event '
+    '(finished / killed / aborted) of a container through trace.app.zk.publish - often a stale one, published after the '
+    'newer container was placed elsewhere - with a connection loss at one single ZooKeeper request of the publish '
+    '(ordinal 1-6 or none; R5 applies to its _unschedule); a runtime that talks to ZooKeeper itself registers a '
+    'container through EndpointPresence.register() under a session of its own, on the container\'s server name or the '
+    'other one, while the host\'s presence service or an earlier runtime session may still own the nodes (its waits '
+    'are points where an earlier runtime session may end; a refused registration ends the session, a successful one '
+    'lives until the scheduler ends it): it applies no set/delete to a presence node another session owns; '
+    'a budget of 0-2 session expiries and 0-1 process crashes that keep the session. Interleaving: '
     'two REAL PresenceResourceService processes (two hostnames, two sessions of the in-memory ZooKeeper) behind the '
     'REAL ResourceService._on_created/_on_deleted/_check_requests; each request handler, each kazoo watch callback '
     'and each handler.spawn() is its own thread of control (greenlet) that parks at the start of every ZooKeeper '
@@ -55,7 +63,10 @@ ASSUMPTIONS = [
     'ZooKeeper operation, new process object with a new session (or the saved session id after a crash)',
     'sysinfo.hostname and trace.app.zk._HOSTNAME rebound to the simulated host name; utils.sys_exit rebound to raise',
     'the master is a stand-in that writes /scheduled/<instance> and /placement/<host>/<instance> when a container is started',
-    'auxiliary clients (EndpointPresence.unregister_*, kill_node, _unschedule) run at request granularity (atomically)',
+    'auxiliary clients (EndpointPresence.unregister_*, kill_node, _unschedule, trace.app.zk.publish, '
+    'EndpointPresence.register of a runtime session) run at request granularity (atomically); time.sleep of '
+    'presence._create_ephemeral_with_retry and of kazoo\'s KazooRetry (zkutils.with_retry) do not sleep; an injected '
+    'connection loss of a publish request means the request never reaches the server',
 ]
 BUDGET = {'quick': (2500, 28.0), 'thorough': (40000, 300.0)}
 REQUIRED_REACH = {'*': [
@@ -63,6 +74,10 @@ REQUIRED_REACH = {'*': [
     'create_met_own_node', 'waits', 'waits_resolved', 'watch_events_delivered', 'expiries',
     'process_deaths_mid_request', 'restarts_replaying_several_requests', 'old_cleanup_next_to_newer_same_host',
     'old_cleanup_next_to_newer_other_host', 'aux_deletes', 'unschedule_deletes', 'interleavings',
+    'stale_terminal_events_published', 'stale_terminal_events_with_connection_loss_on_read_request',
+    'stale_terminal_events_with_connection_loss_on_write_request',
+    'runtime_registration_next_to_live_session_of_same_server', 'runtime_registration_create_met_foreign_owner',
+    'runtime_registrations_succeeded', 'runtime_registrations_refused',
 ]}
 
 
